@@ -145,7 +145,7 @@ func (lr *laRun) finish(res *laResult, extra map[string]interface{}) int {
 					continue
 				}
 				res.Session.WriteReplay(ce, dir)
-				ok, out := layera.RunReplay(dir)
+				ok, out := layera.RunReplayN(dir, kr.Kernel.ReplayTries)
 				os.WriteFile(filepath.Join(dir, "replay.out"), []byte(out), 0o644)
 				validated++
 				if !ok {
